@@ -36,8 +36,9 @@ ASSUMPTIONS = [
     'stores, as the documentation of OutputPool instructs)',
     'number of finite admissible draws >= n_samples (C01 finding region excluded)',
 ]
-OUTSIDE = ['ArrayPool on disk with symbolic payload (.npy cannot hold terms; the file layer is C06)', 'more than 3 batches',
-           'OutputPool.save/open pickling']
+OUTSIDE = ['ArrayPool on disk with symbolic payload (.npy cannot hold terms): the on-disk histories run with fixed distinct numbers '
+           'and fixed arithmetic node functions, only the script, stored set and batch size are solver-chosen there (the file layer '
+           'itself is C06)', 'more than 3 batches']
 
 
 class BatchRS:
@@ -55,7 +56,7 @@ class BatchRS:
             raise core.Cut('generator of an unknown batch')
         out = []
         for _ in range(n):
-            out.append(w.ctx.real('g_%d_%d' % (b, self.pos)))
+            out.append(w.draw(b, self.pos))
             self.pos += 1
         return b, out
 
@@ -63,8 +64,9 @@ class BatchRS:
 class PoolWorld:
     """t (prior) -> sim -> s -> d ; optionally a second stochastic parent `late` of d."""
 
-    def __init__(self, ctx, bs, K, seed=11, late=None):
+    def __init__(self, ctx, bs, K, seed=11, late=None, concrete_payload=False):
         self.ctx = ctx
+        self.concrete_payload = concrete_payload
         self.bs = bs
         self.K = K
         self.seed = seed
@@ -76,7 +78,29 @@ class PoolWorld:
         self.model = self._build()
 
     def _arr(self, vals):
+        if self.concrete_payload:
+            return np.array([float(v) for v in vals], dtype=float)
         return self.ctx.array(vals)
+
+    def draw(self, b, k):
+        """k-th value of batch b's generator: the symbol g_b_k, or (on-disk pools: .npy cannot hold terms) a fixed
+        number that is different for every (b, k)."""
+        if self.concrete_payload:
+            return ((b * 7 + k * 3 + 1) * 0.6180339887) % 1.0 * 2 - 1
+        return self.ctx.real('g_%d_%d' % (b, k))
+
+    def uf(self, name, args):
+        if not self.concrete_payload:
+            return self.ctx.apply_uf(name, args)
+        ver = int(name[-1]) if name[-1].isdigit() else 0
+        a = [float(x) for x in args]
+        if name == 'SIM':
+            return 0.37 * a[0] + 1.91 * a[1] + 0.5 * a[0] * a[1] + 3.0
+        if name.startswith('SUMM'):
+            return a[0] * (1.1 + ver) + 0.01 * ver
+        if name.startswith('DISCL'):
+            return abs(a[0]) * (1 + 0.3 * ver) + 0.001 * ver + 0.17 * a[1]
+        return abs(a[0]) * (1 + 0.3 * ver) + 0.001 * ver
 
     def _build(self):
         w = self
@@ -99,22 +123,22 @@ class PoolWorld:
         def sim(t, batch_size=1, random_state=None, meta=None):
             b, v = random_state.take(batch_size)
             w.calls[('sim', b)] += 1
-            return w._arr([ctx.apply_uf('SIM', [ti, vi]) for ti, vi in zip(t, v)])
+            return w._arr([w.uf('SIM', [ti, vi]) for ti, vi in zip(t, v)])
 
         def mk_summ(ver):
             def summ(y, meta=None):
                 if meta is None:
                     return np.zeros((1,))
                 w.calls[('s', meta['batch_index'])] += 1
-                return w._arr([ctx.apply_uf('SUMM%d' % ver, [yi]) for yi in y])
+                return w._arr([w.uf('SUMM%d' % ver, [yi]) for yi in y])
             return summ
 
         def mk_disc(ver):
             def disc(s, *late, observed=None, meta=None):
                 w.calls[('d', meta['batch_index'])] += 1
                 if late:
-                    return w._arr([ctx.apply_uf('DISCL%d' % ver, [si, li]) for si, li in zip(s, late[0])])
-                return w._arr([ctx.apply_uf('DISC%d' % ver, [si]) for si in s])
+                    return w._arr([w.uf('DISCL%d' % ver, [si, li]) for si, li in zip(s, late[0])])
+                return w._arr([w.uf('DISC%d' % ver, [si]) for si in s])
             return disc
         self.mk_summ, self.mk_disc = mk_summ, mk_disc
         m = elfi.ElfiModel()
@@ -173,35 +197,110 @@ def finite_enough(ctx, sample, n):
     return
 
 
-def h_pool_history(ctx, bs, n, stored_idx, script, late=None, late_stored=False):
+def finding_region(stored, script):
+    """True when some step of the script leaves the pool holding the parameters (a stochastic node that is then loaded)
+    while the simulator has to execute (neither it nor the summary is held): the region of the known finding
+    C05/stochastic-after-loaded-stochastic (the simulator then draws what the prior would have drawn)."""
+    held = set(stored)
+    for op in script:
+        if op.startswith('remove:'):
+            held.discard(op.split(':')[1])
+        elif op.startswith('replace:') or op.startswith('replace+readd:'):
+            # (re-added stores are empty: for the batches the pool holds they count as not held)
+            held -= {'s', 'd'} if op.split(':')[1] == 's' else {'d'}
+        if 't' in held and 'sim' not in held and 's' not in held:
+            return True
+    return False
+
+
+def held_batches(store):
+    if store is None:
+        return set()
+    if hasattr(store, 'keys'):
+        return set(store.keys())
+    return set(range(len(store)))          # array stores hold batches 0..len-1
+
+
+def h_pool_history(ctx, bs, n, stored_idx, script, late=None, late_stored=False, pool_kind='memory'):
     """script: sequence of steps from {'fill','rerun','more','remove:<node>','replace:s','replace:d'}."""
-    w = PoolWorld(ctx, bs, K=3, late=late)
+    import shutil
+    import tempfile
+    on_disk = pool_kind == 'array'
+    if stored_idx is None:
+        stored_idx = ctx.choice('stored_set', len(STORED_SETS))
+    if isinstance(script, str):
+        script = SCRIPTS[script]
+    if bs is None:
+        bs = 1 + ctx.choice('batch_size_minus_1', 2)
+        n = bs
+    w = PoolWorld(ctx, bs, K=3, late=late, concrete_payload=on_disk)
     stored = STORED_SETS[stored_idx] + ((late,) if late and late_stored else ())
-    with w.env():
-        pool = elfi.OutputPool(list(stored))
+    if on_disk and finding_region(stored, script):
+        raise core.Infeasible()       # region of the known finding (probed by the in-memory pool_t+..._ harnesses)
+    tmp = tempfile.mkdtemp(prefix='symx_c05_') if on_disk else None
+    try:
+        with w.env():
+            _pool_history(ctx, w, bs, n, stored, script, on_disk, tmp)
+    finally:
+        if tmp:
+            shutil.rmtree(tmp, ignore_errors=True)
+
+
+def _pool_history(ctx, w, bs, n, stored, script, on_disk, tmp):
+    if True:
+        pool = elfi.ArrayPool(list(stored), name='pool', prefix=tmp) if on_disk else elfi.OutputPool(list(stored))
         nb = 1
         step = 0
+        model = {}
         for op in script:
             step += 1
             if op == 'more':
                 nb += 1
+            elif op == 'reopen':
+                # on disk: the user flushes and closes the pool, then works on with the files opened afresh
+                if on_disk:
+                    pool.flush()
+                    for nd in list(pool.stores):
+                        if pool.stores[nd] is not None:
+                            pool.stores[nd].close()
+                            pool.stores[nd] = None
+                            pool.add_store(nd)        # opens the existing file
             elif op.startswith('remove:'):
                 nd = op.split(':')[1]
                 if pool.has_store(nd):
-                    pool.remove_store(nd)
+                    st = pool.remove_store(nd)
+                    model.pop(nd, None)
+                    if on_disk and st is not None:
+                        st.close()
             elif op.startswith('replace:') or op.startswith('replace+readd:'):
                 nd = op.split(':')[1]
                 # stale stores of the replaced node and of what is computed from it are dropped by the user ...
                 for x in (['s', 'd'] if nd == 's' else ['d']):
                     if pool.has_store(x):
-                        pool.remove_store(x)
+                        st = pool.remove_store(x)
+                        if on_disk and st is not None:
+                            if op.startswith('replace+readd:'):
+                                st.clear()     # the file stays on disk: dropping its content is part of dropping the store
+                            st.close()
+                        model.pop(x, None)
                         if op.startswith('replace+readd:'):
                             pool.add_store(x)      # ... and, in this variant, added again empty to be refilled
                 w.replace(nd)
-            held_before = {nd: set(pool.stores[nd].keys()) if pool.stores.get(nd) is not None else set()
-                           for nd in pool.stores}
+            # what the pool must hold according to the history (independent of what the stores report)
+            for nd in list(model):
+                if nd not in pool.stores:
+                    del model[nd]
+            for nd in pool.stores:
+                model.setdefault(nd, set())
+            tag0 = 'step%d_%s' % (step, op.replace(':', '_').replace('+', '_'))
+            for nd in pool.stores:
+                ctx.claim('%s_before_run_store_%s_reports_the_batches_added_so_far' % (tag0, nd),
+                          held_batches(pool.stores[nd]) == model[nd])
+            held_before = {nd: set(model[nd]) for nd in pool.stores}
             calls_before = dict(w.calls)
             sp = run(w, n, nb, pool, again=(op == 'again'))
+            for nd in pool.stores:
+                model[nd] = set(range(nb))
             calls_mid = dict(w.calls)
             # reference: the same seeded run without a pool
             sr = run(w, n, nb, None)
@@ -217,11 +316,40 @@ def h_pool_history(ctx, bs, n, stored_idx, script, late=None, late_stored=False)
             rf = elfi.Rejection(w.model['d'], batch_size=w.bs, seed=w.seed, output_names=['s'], pool=fresh)
             rf.sample(n, n_sim=nb * w.bs, bar=False)
             for nd in pool.stores:
-                st = pool.stores[nd] or {}
+                st = pool.stores[nd]
                 fs = fresh.stores[nd] or {}
-                ctx.claim('%s_pool_batches_%s' % (tag, nd), sorted(st.keys()) == list(range(nb)))
+                held = sorted(held_batches(st))
+                ctx.claim('%s_pool_batches_%s' % (tag, nd), held == list(range(nb)))
                 ctx.claim('%s_pool_values_%s' % (tag, nd),
-                          And(*[close(st[b][i], fs[b][i]) for b in sorted(st.keys()) if b in fs for i in range(bs)]))
+                          And(*[close(st[b][i], fs[b][i]) for b in held if b in fs for i in range(bs)]))
+        if on_disk:
+            # what is on disk after flush + close is what a fresh computation gives (files loaded with numpy itself)
+            import os
+            pool.flush()
+            pool.close()
+            for nd in pool.stores:
+                if fresh.stores.get(nd) is None:
+                    continue
+                arr = np.load(os.path.join(tmp, 'pool', nd + '.npy'))
+                want = np.concatenate([np.asarray(fresh.stores[nd][b], dtype=float) for b in range(nb)], axis=0)
+                ctx.claim('final_file_of_%s_is_the_fresh_computation' % nd, arr.shape == want.shape and bool(np.array_equal(arr, want)))
+            # the closed pool opened again (OutputPool.save / open, real pickle) serves the same batches without re-simulation
+            pool2 = elfi.ArrayPool.open('pool', prefix=tmp)
+            ctx.claim('reopened_pool_has_the_stores_and_context', sorted(pool2.stores) == sorted(pool.stores) and
+                      pool2.batch_size == bs and pool2.seed == w.seed)
+            held2 = {nd: held_batches(pool2.stores[nd]) for nd in pool2.stores}
+            for nd in pool2.stores:
+                if fresh.stores.get(nd) is not None:
+                    ctx.claim('reopened_pool_batches_%s' % nd, sorted(held2[nd]) == list(range(nb)))
+            calls_before = dict(w.calls)
+            w.last_sampler = None
+            sp2 = run(w, n, nb, pool2)
+            calls_mid = dict(w.calls)
+            same_sample(ctx, 'reopened_pool', sp2, run(w, n, nb, None), n)
+            for nd, held in held2.items():
+                for b in held:
+                    ctx.claim('reopened_pool_no_recompute_%s_b%d' % (nd, b), calls_mid.get((nd, b), 0) == calls_before.get((nd, b), 0))
+            pool2.close()
 
 
 def h_context_refusal(ctx, bs):
@@ -270,7 +398,7 @@ for si, st in enumerate(STORED_SETS):
         quick = (si in (0, 1, 4, 6) and sname in ('fill_rerun_more', 'fill_replace_s')) or (si == 0 and sname == 'fill_remove_sim')
         # removing the simulator's store from a pool that also holds the parameters leaves a loaded stochastic node (t)
         # followed by an executing one (sim): the region of the known finding
-        shifted = 't' in st and 'sim' in st and sname == 'fill_remove_sim' and not ({'s', 'd'} & set(st))
+        shifted = finding_region(st, SCRIPTS[sname])
         HARNESSES.append(H('pool_%s_%s' % ('+'.join(st), sname), h_pool_history,
                            dict(bs=2, n=2, stored_idx=si, script=SCRIPTS[sname]),
                            finding='C05/stochastic-after-loaded-stochastic' if shifted else None,
@@ -302,6 +430,16 @@ HARNESSES += [
       finding='C05/stochastic-after-loaded-stochastic', finding_claims=('_same_t', '_same_s', '_same_d', '_same_threshold'),
       bounds='second simulator feeding d, named zz: executes AFTER sim; sim stored, zz not'),
 ]
+
+# on-disk ArrayPool: the same histories on real .npy files in a scratch directory (concrete payload; the stored node set,
+# batch size and script are solver-chosen)
+SCRIPTS['fill_more_reopen_more'] = ['fill', 'more', 'reopen', 'more']
+SCRIPTS['fill_reopen_rerun_replace_d_more'] = ['fill', 'reopen', 'rerun', 'replace:d', 'more']
+for sname in ('fill_rerun_more', 'fill_replace_d', 'fill_replace_s', 'fill_remove_sim', 'fill_more_replace_s_more', 'fill_more_again',
+              'fill_more_replace_readd_s', 'fill_more_reopen_more', 'fill_reopen_rerun_replace_d_more'):
+    HARNESSES.append(H('arraypool_%s' % sname, h_pool_history, dict(bs=None, n=None, stored_idx=None, script=sname, pool_kind='array'),
+                       bounds='on-disk ArrayPool (real .npy files), script %s, every stored set of %d, batch_size in {1,2}' % (
+                           SCRIPTS[sname], len(STORED_SETS)), witness=False))
 
 MANIFEST = {
     'level_text': 'Bounded symbolic execution of the real pool/loader/context/executor code under whole Rejection runs: for every '
